@@ -691,8 +691,14 @@ class Expression(np.ndarray):
             expr2 = Expression(expr2)
         if expr1.shape != expr2.shape:
             return False
+        for se in expr1.flat:
+            se.remove_zeros()
+        for se in expr2.flat:
+            se.remove_zeros()
         A1, x1, B1 = expr1.factor()
         A2, x2, B2 = expr2.factor()
+        if len(x1) != len(x2):
+            return False
         for i in range(len(x1)):
             if not isinstance(x2[i], type(x1[i])):
                 return False
